@@ -1045,7 +1045,10 @@ func prewriteMutation(db *leveldb.DB, batch *leveldb.Batch,
 			// The minCommitTS has been pushed forward.
 			minCommitTS = dec.lock.minCommitTS
 		}
-		_, err = checkConflictValue(iter, mutation, startTS, startTS, false, assertionLevel, false, false)
+		// The pessimistic lock request has already done the write conflict check at its for-update timestamp: like
+		// TiKV, do not check write conflicts again (a version committed between the start timestamp and that
+		// for-update timestamp is no conflict), only the rollback marker and the assertion.
+		_, err = checkConflictValue(iter, mutation, math.MaxUint64, startTS, false, assertionLevel, false, false)
 		if err != nil {
 			return err
 		}
